@@ -114,6 +114,7 @@ def to_native(doc, ver, clsname, mode, depth=0):
 
 
 TOPLEVEL_EXT_ID = "extension-definition--a1b2c3d4-0000-4000-8000-00000000c001"
+TOPLEVEL_EXT_ID2 = "extension-definition--a1b2c3d4-0000-4000-8000-00000000c003"
 _registered = [False]
 
 
@@ -155,6 +156,9 @@ def ensure_custom():
     @stix2.v21.CustomExtension(TOPLEVEL_EXT_ID, [("toplevel_a", P.StringProperty()), ("toplevel_b", P.IntegerProperty())])
     class C01TopExt(object):
         extension_type = "toplevel-property-extension"
+    @stix2.v21.CustomExtension(TOPLEVEL_EXT_ID2, [("beta_rank", P.IntegerProperty(default=lambda: 5)), ("beta_note", P.StringProperty())])
+    class C01TopExt2(object):
+        extension_type = "toplevel-property-extension"
     _registered[0] = True
 
 
@@ -165,6 +169,9 @@ def build(case):
     ensure_custom()
     ver, doc = case["ver"], case["doc"]
     src = case["source"]
+    if case.get("pre"):
+        # history: another object is created first (state leaking between objects through shared class tables would show now)
+        core.guarded(stix2.parse, case["pre"], allow_custom=False, version=case["ver"])
     allow_custom = bool(case.get("custom")) or case.get("allow_custom", False)
     full = dict(doc)
     full.update(case.get("custom") or {})
@@ -223,7 +230,9 @@ def check_case(case):
     if isinstance(obj, dict):
         return None
     has_custom = bool(getattr(obj, "has_custom", False))
-    pairs = default_pairs(ver) | default_pairs("2.0" if ver == "2.1" else "2.1") | {("prop_bool", "false")}   # + the harness type's own default
+    pairs = default_pairs(ver) | default_pairs("2.0" if ver == "2.1" else "2.1") | {("prop_bool", "false")}
+    if isinstance(case["doc"].get("extensions"), dict) and TOPLEVEL_EXT_ID2 in case["doc"]["extensions"]:
+        pairs = pairs | {("beta_rank", "5")}      # default of the second harness extension: only where that extension is present   # + the harness type's own default
     base_text, exc = core.guarded(obj.serialize)
     if exc is not None:
         return [("serialize-crash:%s" % type(exc).__name__, "serialize() raised %s on %s" % (core.fmt_exc(exc), core.short(case["doc"], 400)))]
@@ -375,8 +384,22 @@ def registered_custom_case(draw):
             doc["toplevel_a"] = txt()
         if draw(st.booleans()):
             doc["toplevel_b"] = draw(st.integers(0, 99))
+        both = {"type": "identity", "spec_version": "2.1", "id": "identity--" + uid(), "created": "2020-01-01T00:00:00.000Z", "modified": "2020-01-02T00:00:00.000Z",
+                "name": "both", "toplevel_a": "a", "beta_note": "n",
+                "extensions": dict([(TOPLEVEL_EXT_ID, {"extension_type": "toplevel-property-extension"}), (TOPLEVEL_EXT_ID2, {"extension_type": "toplevel-property-extension"})][::draw(st.sampled_from([1, -1]))])}
+        r = draw(st.integers(0, 2))
+        if r == 0:
+            pre = both                      # an object with both registered extensions was handled earlier
+        elif r == 1:
+            doc, pre = both, None           # the object under test carries both
+            if draw(st.booleans()):
+                doc["beta_rank"] = draw(st.integers(0, 9))
+        else:
+            pre = None
     case = {"ver": ver, "doc": doc, "shape": "registered-custom:" + kind, "allow_custom": False,
             "source": draw(st.sampled_from(["parsed", "parsed-text", "constructed"]))}
+    if kind == "toplevel-ext" and pre is not None:
+        case["pre"] = pre
     if case["source"] == "constructed":
         case["native"] = "text"
         case["drop"] = []
